@@ -41,6 +41,8 @@ THEOREMS = [
     "NfcVerif.C12.isodep_terminates_activated",
     "NfcVerif.C12.isodep_absorbs",
     "NfcVerif.C12.isodep_absorbs_bound_tight",
+    "NfcVerif.C12.isodep_repairs_invisible",
+    "NfcVerif.C12.isodep_same_as_c08_model",
     "NfcVerif.C12.isodep_block_bound",
     "NfcVerif.C12.isodep_block_bound_derived",
     "NfcVerif.C12.isodep_block_bound_any_card",
